@@ -334,6 +334,17 @@ func twoGroupsViaSet(c *runner.Ctx) {
 					pan, msg, site := runner.Guard(func() { err = valid.Struct(o.Interface(), rm) })
 					exp := walk.Struct(o.Interface(), walk.Opts{Unscoped: rs})
 					report(c, "struct+RM.Set", desc, canon(exp.Error()), err, pan, msg, site, 2, false)
+					// the same fields carrying size rules in their tags (the call's rule replaces the tag rule of the field it
+					// names: the members are members whether the tag would have skipped their empty value or not)
+					stT := reflect.StructOf([]reflect.StructField{{Name: "F0", Type: kd.t, Tag: `valid:"to=0~99999"`}, {Name: "F1", Type: kd.t, Tag: `valid:"le=99999,ge=0"`}, {Name: "F2", Type: kd.t, Tag: `valid:"noeq=77777"`}})
+					oT := reflect.New(stT)
+					for i := range vals {
+						oT.Elem().Field(i).Set(reflect.ValueOf(kd.vals[vals[i]]))
+					}
+					pan, msg, site = runner.Guard(func() { err = valid.Struct(oT.Interface(), rm) })
+					report(c, "tagged-struct+RM.Set", desc, canon(walk.Struct(oT.Interface(), walk.Opts{Unscoped: rs}).Error()), err, pan, msg, site, 2, false)
+					pan, msg, site = runner.Guard(func() { err = valid.NewVStruct().SetRule(rm, oT.Interface()).Valid(oT.Interface()) })
+					report(c, "tagged-struct+SetRule(rm, obj)", desc, canon(walk.Struct(oT.Interface(), walk.Opts{Unscoped: rs}).Error()), err, pan, msg, site, 2, false)
 					// map / url
 					rm, rs = build([3]string{"k0", "k1", "k2"})
 					var ms []mm
@@ -516,6 +527,18 @@ func mapUrlCases(c *runner.Ctx, k int, kd kindT) {
 				u = "http://h/p?z=1&" + strings.Join(q, "&")
 				pan, msg, site = runner.Guard(func() { err = valid.Url(u, rules) })
 				report(c, "Url-reversed", desc+" url="+u, mapModel([][]mm{mkMembers(va)}, rs, true), err, pan, msg, site, len(ng), false)
+				// every non-empty value starts with a percent-encoded '#' and ends in an encoded '+': still that value
+				q = q[:0]
+				for _, m := range mkMembers(va) {
+					if m.val == "" {
+						q = append(q, m.key+"=")
+					} else {
+						q = append(q, m.key+"=%23"+m.val+"%2B")
+					}
+				}
+				u = "http://h/p?" + strings.Join(q, "&") + "&z=%23"
+				pan, msg, site = runner.Guard(func() { err = valid.Url(u, rules) })
+				report(c, "Url-encoded-hash", desc+" url="+u, mapModel([][]mm{mkMembers(va)}, rs, true), err, pan, msg, site, len(ng), false)
 			}
 		}
 	}
